@@ -287,10 +287,18 @@ class VolumeMesh(Mesh):
             else:
                 self._adjC2C = self.mesh.cell_faces.create_attribute("adjacent_cell", int, 1, default_value= config.NOT_AN_ID)
                 for iC, cell in enumerate(self.mesh.cells):
-                    v0,v1,v2,v3 = cell
-                    # face fi does not contain vertex vi
-                    f0,f1,f2,f3 = self.face_id(v1,v3,v2), self.face_id(v0,v2,v3), self.face_id(v3,v1,v0), self.face_id(v0,v1,v2)
-                    for iF, F in enumerate((f0,f1,f2,f3)):
+                    if len(cell)==4:
+                        v0,v1,v2,v3 = cell
+                        # face fi does not contain vertex vi
+                        faces = (self.face_id(v1,v3,v2), self.face_id(v0,v2,v3), self.face_id(v3,v1,v0), self.face_id(v0,v1,v2))
+                    elif len(cell)==8:
+                        v1,v2,v3,v4,v5,v6,v7,v8 = cell
+                        # same local numbering of faces as in RawMeshData._generate_cell_faces
+                        faces = (self.face_id(v1,v2,v3,v4), self.face_id(v5,v6,v7,v8), self.face_id(v1,v4,v8,v5),
+                                 self.face_id(v1,v2,v6,v5), self.face_id(v2,v3,v7,v6), self.face_id(v3,v4,v8,v7))
+                    else:
+                        continue
+                    for iF, F in enumerate(faces):
                         for iC2 in self.face_to_cells(F):
                             if iC2 != iC: self._adjC2C[(iC,iF)] = iC2
                             
